@@ -13,16 +13,17 @@
 import GherkinVerif.Lemmas.QueueLoop
 import GherkinVerif.Gen.ParserTable
 import GherkinVerif.Gen.Dialects
+import GherkinVerif.KDecide
 namespace GV
 
-theorem C01_fact_queue : Spec.queueFacts Gen.parserTable = true := by decide +kernel
-theorem C01_fact_keywords : Spec.queueDialectFacts Gen.dialects = true := by decide +kernel
+theorem C01_fact_queue : Spec.queueFacts Gen.parserTable = true := by kdecide
+theorem C01_fact_keywords : Spec.queueDialectFacts Gen.dialects = true := by kdecide
 
 /-- the constant of the regenerated table: 12 tests in the largest state, at most 2 guarded tests
     per state, at most 4 matcher calls per token and look-ahead -/
 theorem C01_work_per_token : Spec.workPerToken Gen.parserTable = 20 ∧
     Spec.maxTests Gen.parserTable = 12 ∧ Spec.maxGuards Gen.parserTable = 2 ∧
-    Spec.maxLookaheadTests Gen.parserTable = 4 := by decide +kernel
+    Spec.maxLookaheadTests Gen.parserTable = 4 := by kdecide
 
 /-- Linear matching work, for any table and dialect table passing the checks: at most
     `workPerToken T` matcher calls per line (and for the end-of-file token), whatever the outcome. -/
@@ -53,6 +54,6 @@ theorem C01_match_calls_linear_20 (stop : Bool) (μ : MState) (ids : Nat) (src :
 example : (MState.init Gen.dialects (lit "en")).map
       (fun μ => (parseWith Gen.dialects Gen.parserTable false μ 0
         (lit "Feature: f\nScenario: s\nGiven x\n@a\n\n#c\n@b\nExamples:\n|a|\n@t\n\n@u\nScenario: z\n@x\n@y\nRule: r\n")).2.calls) =
-    some 99 := by decide +kernel
+    some 99 := by kdecide
 
 end GV
